@@ -318,7 +318,7 @@ fn control_self_test() -> Result<(), String> {
 // driver
 // ---------------------------------------------------------------------------------------
 
-fn replay(args: &Args, env: &Env, v: &Value, mut rep: Report, b: &Bounds) -> Report {
+fn replay(env: &Env, v: &Value, mut rep: Report, b: &Bounds) -> Report {
     let Some(case) = Case::from_json(v) else {
         rep.machinery_error = Some(format!("replay: cannot interpret {v}"));
         return rep;
@@ -343,7 +343,6 @@ fn replay(args: &Args, env: &Env, v: &Value, mut rep: Report, b: &Bounds) -> Rep
     rep.extra.insert("observations_identical".into(), json!(obs[0] == obs[1]));
     rep.extra.insert("observations".into(), json!(obs));
     rep.assumptions.push("schedules are not owned: a failure that depends on the interleaving may not reproduce in a replay".into());
-    let _ = args;
     rep
 }
 
@@ -366,7 +365,7 @@ pub fn run(args: &Args) -> Report {
         }
     };
     if let Some(v) = args.replay_json() {
-        return replay(args, &env, &v, rep, &b);
+        return replay(&env, &v, rep, &b);
     }
 
     let mut cases = matrix(&b);
@@ -584,10 +583,23 @@ pub fn run(args: &Args) -> Report {
     if degraded.load(Ordering::SeqCst) {
         rep.caps_hit.push(format!("after two deadline failures were confirmed alone, the remaining scenarios ran with a {SHORT_DEADLINE_S} s deadline and repeated failures were counted without a re-run (counts of those keys are approximate)"));
     }
-    for c in [cases.first(), cases.get(cases.len() / 3), cases.get(cases.len() / 2), cases.get(cases.len() - n_udp / 2 - 1), cases.last()].into_iter().flatten() {
-        rep.sample(c.to_json());
+    // samples: one per kind of scenario
+    let picks: [&dyn Fn(&Case) -> bool; 6] = [
+        &|c| matches!(c, Case::Tcp(t) if t.order == Order::ClientHalf && t.conc > 1 && t.c2t > 1 && t.t2c > 1 && t.entry == Entry::Socks5Domain),
+        &|c| matches!(c, Case::Tcp(t) if t.order == Order::TargetClose && t.entry == Entry::HttpConnect && t.c2t == 1 && t.t2c > 1),
+        &|c| matches!(c, Case::Tcp(t) if t.order == Order::Refuse && t.entry == Entry::Socks4a),
+        &|c| matches!(c, Case::Tcp(t) if t.order == Order::TargetHalf && t.entry == Entry::UnixRemote && t.c2t == 0),
+        &|c| matches!(c, Case::Udp(u) if u.kind == UKind::SocksIp && u.topo == Topo::Three && u.size == 3),
+        &|c| matches!(c, Case::Udp(u) if u.kind == UKind::Remote && u.topo == Topo::Shared && u.size == 0),
+    ];
+    for p in picks {
+        if let Some(c) = cases.iter().find(|c| p(c)) {
+            rep.sample(c.to_json());
+        }
     }
     rep.assumptions.push("interleavings are whatever the multi-thread tokio runtime and the kernel produce: ONE uncontrolled schedule per matrix point (level: exploration); the schedule-sensitive part of the same paths is decided by C02/C05/C13 with owned schedules".into());
+    rep.assumptions.push("a violation that needs a particular interleaving (e.g. back-pressure from the other scenarios running in parallel) may not show again when its replay file is run alone; the replay then reports no violation".into());
+    rep.assumptions.push("quick tier: the long payload is one receive window of 8 KiB frames plus 4099 bytes (the sender needs at least one window update); thorough tier: three windows, a 4099-byte payload, 5 simultaneous connections and more datagram lengths".into());
     rep.assumptions.push("how a read ends after BOTH directions are finished (EOF or reset) is recorded, not judged; a half-close must arrive as a true EOF and the data sent after it must arrive completely".into());
     rep.assumptions.push("target refuses: a SOCKS/HTTP success answer followed by a close, a refusal answer, or a close before the answer all count as 'closed rather than left hanging'".into());
     rep.assumptions.push("the address inside the SOCKS5 UDP reply header is recorded (extra.socks5_udp_header_addr_*), not judged: the statement only demands a well-formed header that can be stripped".into());
